@@ -50,7 +50,7 @@ SWARM_OPTS = ['--leaf-changes-only', '--impacted-interfaces', '--harmless', '--n
               '--drop-private-types', '--full-impact', '--verbose']
 
 
-def gen_workload(rng, big=False, devel=False, same_prefix=False, extended=True, swarm=False):
+def gen_workload(rng, big=False, devel=False, same_prefix=False, extended=True, swarm=False, splitdbg=False):
     """A package pair as data: files = [{path, v1, v2}] where v1/v2 name a pool library or None.
     same_prefix: keep the pair where the tool's binary matching is unambiguous (see elf_dirs_prefix): if the removals and
     additions left the two sides with different ELF directory prefixes, a pair of binaries at the package root is added,
@@ -158,7 +158,19 @@ def gen_workload(rng, big=False, devel=False, same_prefix=False, extended=True, 
                 f = rng.choice([f for f in files if '/' not in f['path']])
                 f['v1'], f['v2'] = f['v1'] or f['v2'], f['v2'] or f['v1']
             wl['anchored'] = True
+    if splitdbg and rng.chance(1, 3):
+        # the way distributions ship packages: binaries without their .debug* sections, the debug info in a package of its
+        # own (--d1/--d2; usr/lib/debug/<file>.debug reached through usr/lib/debug/.build-id/xx/yyyy.debug).  Drawn last, so
+        # that the rest of the workload is what it was before this dimension existed.
+        wl['splitdbg'] = True
     return wl
+
+
+def eff(wl, v):
+    """the pool entry that stands in the package for version v of a binary"""
+    if v and wl.get('splitdbg') and not v.endswith('_nodbg'):
+        return v + '_strip'
+    return v
 
 
 def materialise(wl, libs, root, order_rng=None):
@@ -181,7 +193,7 @@ def materialise(wl, libs, root, order_rng=None):
         for f in entries:
             p = os.path.join(d, f['path'])
             os.makedirs(os.path.dirname(p), exist_ok=True)
-            shutil.copyfile(libs[f[key]], p)
+            shutil.copyfile(libs[eff(wl, f[key])], p)
             os.chmod(p, 0o755)
         # the package on disk must be exactly what the workload (and therefore the reference model) says it is
         disk = set()
@@ -202,6 +214,31 @@ def materialise(wl, libs, root, order_rng=None):
                 raise C.InfraError('tar failed: %s' % p.stdout[-300:])
             shutil.rmtree(d)
             out.append(tarp)
+    if wl.get('splitdbg'):
+        for side, key in (('f', 'v1'), ('s', 'v2')):
+            d = os.path.join(root, 'pkg-%s1-debuginfo' % side)
+            os.makedirs(os.path.join(d, 'usr', 'lib', 'debug'))       # present even when every binary of this side came without debug info
+            for v in sorted(set(f[key] for f in wl['files'] if f[key] and eff(wl, f[key]) != f[key])):
+                # merge the debug tree of this binary into the package (two binaries with the same build id - identical code -
+                # share one .build-id link)
+                for dp, dn, fn in os.walk(libs[v + '_dbgroot']):
+                    rel = os.path.relpath(dp, libs[v + '_dbgroot'])
+                    os.makedirs(os.path.join(d, rel), exist_ok=True)
+                    for x in fn:
+                        src, dst = os.path.join(dp, x), os.path.join(d, rel, x)
+                        if os.path.lexists(dst):
+                            continue
+                        if os.path.islink(src):
+                            os.symlink(os.readlink(src), dst)
+                        else:
+                            shutil.copyfile(src, dst)
+            if wl['format'] != 'dir':
+                # abipkgdiff looks for <extraction directory>/usr/lib/debug: the archive has usr/ as its top-level member
+                ext = wl['format']
+                p = subprocess.run(['tar', '-C', d, '-c' + ('z' if ext.endswith('gz') else '') + 'f', d + '.' + ext, 'usr'], stdout=subprocess.PIPE, stderr=subprocess.STDOUT)
+                if p.returncode != 0:
+                    raise C.InfraError('tar failed: %s' % p.stdout[-300:])
+                shutil.rmtree(d)
     if wl.get('devel'):
         for side in ('f', 's'):
             d = os.path.join(root, 'pkg-%s1-devel' % side, 'usr', 'include')
@@ -211,14 +248,20 @@ def materialise(wl, libs, root, order_rng=None):
     return out[0], out[1]
 
 
-def spec(wl, p1, p2, simt, parallel=True, extra=None):
+def spec(wl, p1, p2, simt, parallel=True, extra=None, root=None):
+    """root: the directory materialise() was given (default: where the first package is)"""
     devel = []
+    root = root or os.path.dirname(p1)
     if wl.get('devel'):
-        root = os.path.dirname(p1)
         devel = ['--devel-pkg1', os.path.join(root, 'pkg-f1-devel'), '--devel-pkg2', os.path.join(root, 'pkg-s1-devel')]
+    if wl.get('splitdbg') and not wl.get('self_check'):
+        ext = '' if wl['format'] == 'dir' else '.' + wl['format']
+        devel += ['--d1', os.path.join(root, 'pkg-f1-debuginfo' + ext), '--d2', os.path.join(root, 'pkg-s1-debuginfo' + ext)]
     argv = ['abipkgdiff'] + list(wl['options']) + ([] if parallel else ['--no-parallel']) + devel + list(extra or []) + [p1, p2]
     if wl.get('self_check'):
-        argv = ['abipkgdiff'] + [o for o in wl['options'] if o != '--fail-no-dbg'] + ([] if parallel else ['--no-parallel']) + list(extra or []) + ['--self-check', p1]
+        ext = '' if wl['format'] == 'dir' else '.' + wl['format']
+        dbg = ['--d1', os.path.join(root, 'pkg-f1-debuginfo' + ext)] if wl.get('splitdbg') else []
+        argv = ['abipkgdiff'] + [o for o in wl['options'] if o != '--fail-no-dbg'] + ([] if parallel else ['--no-parallel']) + dbg + list(extra or []) + ['--self-check', p1]
     s = {'argv': argv, 'cpu_limit_s': 120}
     if simt is not None:
         s['simt'] = simt
@@ -270,7 +313,7 @@ def model(wl, pair_status):
                 errors.append(os.path.basename(f['path']))
                 status |= 1
                 continue
-            st = pair_status(f['v1'], f['v2'], wl['options'])
+            st = pair_status(eff(wl, f['v1']), eff(wl, f['v2']), wl['options'])
             status |= st
             if st & 4:
                 sections.append(os.path.basename(f['path']))
